@@ -959,7 +959,12 @@ func (b *BaseStore) AddOperation(ctx context.Context, op operation.Operation, on
 
 	b.recalculateReplicationStatus(e.GetClock().GetTime())
 
-	marshaledEntry, err := json.Marshal([]ipfslog.Entry{e})
+	// local heads persisted by an earlier run that this handle has not loaded
+	// are not ancestors of the new entry: they stay in the persisted list, or
+	// the acknowledged entries below them cannot be found after a restart
+	localHeads := append([]ipfslog.Entry{e}, b.unloadedLocalHeads(ctx, e)...)
+
+	marshaledEntry, err := json.Marshal(localHeads)
 	if err != nil {
 		b.muWrite.Unlock()
 		return nil, fmt.Errorf("unable to marshal entry: %w", err)
@@ -986,6 +991,35 @@ func (b *BaseStore) AddOperation(ctx context.Context, op operation.Operation, on
 	}
 
 	return e, nil
+}
+
+// unloadedLocalHeads returns the cached local heads that are not in the log:
+// the store is being written to before (or without) having loaded them
+func (b *BaseStore) unloadedLocalHeads(ctx context.Context, e ipfslog.Entry) []ipfslog.Entry {
+	raw, err := b.Cache().Get(ctx, datastore.NewKey("_localHeads"))
+	if err != nil || len(raw) == 0 {
+		return nil
+	}
+
+	var cached []*entry.Entry
+	if err := json.Unmarshal(raw, &cached); err != nil {
+		return nil
+	}
+
+	var kept []ipfslog.Entry
+	for _, h := range cached {
+		if h == nil || !h.GetHash().Defined() || h.GetHash().Equals(e.GetHash()) {
+			continue
+		}
+
+		if _, ok := b.OpLog().Get(h.GetHash()); ok {
+			continue
+		}
+
+		kept = append(kept, h)
+	}
+
+	return kept
 }
 
 func (b *BaseStore) recalculateReplicationProgress() {
